@@ -1,31 +1,7 @@
 #!/bin/sh
-# Phase 2 of the mutation measurement: for every survivor of phase 1 (passes the suite, changes the observable behaviour of
-# some harness scenario) run the sweep of the functions under contract it can influence. Results: /verif/mutation/phase2.txt
-# ("<id> CAUGHT|MISSED <file:line:col> <operator> [first failed obligations]").
-jq -r '.findings[] | select(.status=="open") | .obligation' /verif/known_findings.json | sort -u > /tmp/rosvc_known_open.txt
-export GOFLAGS=-mod=mod GOPROXY=off GOSUMDB=off GOTOOLCHAIN=local
-OUT=/verif/mutation
-B=$(mktemp -d /tmp/mutbase.XXXXXX); git -C /repo archive HEAD | tar -x -C $B
-one() {
-  id=$1; desc=$(grep "^$id " $OUT/points.txt | cut -d' ' -f2-)
-  W=$(mktemp -d /tmp/mut2.XXXXXX); cp -r $B/. $W/
-  /verif/bin/mutate -dir $W -apply $id >/dev/null 2>&1
-  A=$(/verif/bin/rosvc affected -repo $W -base $B 2>/dev/null | tail -1)
-  case "$A" in
-    NONE) echo "$id MISSED $desc (no function under contract is affected)"; rm -rf $W; return;;
-    ALL|"") ONLY="";;
-    *) ONLY="-only $A";;
-  esac
-  out=$(timeout 1500 /verif/bin/rosvc fn -repo $W $ONLY 2>&1 | grep -E "^   (refuted|undischarged|broken|unknown|timeout) " | grep -v -F -f /tmp/rosvc_known_open.txt | awk '{print $2}' | head -4 | tr '\n' ' ')
-  if [ -z "$out" ]; then echo "$id MISSED $desc"; else echo "$id CAUGHT $desc :: $out"; fi
-  rm -rf $W
-}
-: > $OUT/phase2.txt
-n=0
-for id in $(grep " survivor " $OUT/phase1.txt | cut -d' ' -f1); do
-  one $id >> $OUT/phase2.txt &
-  n=$((n+1)); if [ $((n % 3)) = 0 ]; then wait; fi
-done
-wait
-rm -rf $B
-cut -d' ' -f2 $OUT/phase2.txt | sort | uniq -c
+# Phase 2 of the mutation measurement: every survivor of phase 1 (passes the suite, changes the observable behaviour of
+# some harness scenario) against the contracts: the sweep of the functions under contract it can influence.
+# Results: /verif/mutation/phase2.txt ("<id> CAUGHT|MISSED|INCOMPLETE <file:line:col> <operator> [:: first failed obligations]").
+cd /verif
+PAR=${PAR:-3} tools/mutation_recheck.sh $(grep " survivor " mutation/phase1.txt | cut -d' ' -f1) > mutation/phase2.txt
+cut -d' ' -f2 mutation/phase2.txt | sort | uniq -c
